@@ -101,6 +101,35 @@ class Judge:
                 return
 
 
+def open_dimensions(J):
+    """A box that is periodic along x only: TurtleMD reports an infinite length for the open dimensions.
+    Periodic order parameters must fold along x and leave y, z alone (finite values, invariant under x-shifts)."""
+    L = 5.0
+    box = np.array([L, np.inf, np.inf])
+    for rel in itertools.product((-3.0, -1.0, 0.5, 2.0, 4.0), (-2.0, 0.0, 7.5), (-0.5, 3.0)):
+        rel = np.array(rel)
+        p0 = np.array([0.25, -0.5, 0.75])
+        pos = np.array([p0, p0 + rel])
+        vel = np.array([[0.5, -1.0, 0.25], [-0.25, 0.5, 1.0]])
+        dx = rel[0] - L * np.round(rel[0] / L)
+        if abs(abs(dx) - L / 2) < 1e-12:
+            continue
+        want = float(np.sqrt(dx * dx + rel[1] ** 2 + rel[2] ** 2))
+        d = J.calc("Distance", op.Distance((0, 1), periodic=True), mk(pos, vel, box), ("open", tuple(rel)))
+        v = J.calc("Distancevel", op.Distancevel((0, 1), periodic=True), mk(pos, vel, box), ("open", tuple(rel)))
+        if d is None or v is None:
+            continue
+        if not np.isfinite(d[0]) or abs(d[0] - want) > TOL * max(1.0, want):
+            J.fail("Distance:open-dimension", f"box [5, inf, inf], separation {tuple(rel)}: {d[0]} instead of {want}", tuple(rel))
+        if not np.isfinite(v[0]):
+            J.fail("Distancevel:open-dimension", f"box [5, inf, inf], separation {tuple(rel)}: {v[0]}", tuple(rel))
+        p2 = pos.copy()
+        p2[1, 0] += L
+        d2 = J.calc("Distance", op.Distance((0, 1), periodic=True), mk(p2, vel, box), ("open-shift", tuple(rel)))
+        if d2 is not None and not abs(d2[0] - d[0]) <= TOL * max(1.0, want):
+            J.fail("Distance:open-dimension", f"box [5, inf, inf]: not invariant under a shift by the box length along x ({d[0]} vs {d2[0]})", tuple(rel))
+
+
 def plumbing(J):
     """EngineBase.calculate_order hands positions, velocities (with the frame's velocity direction) and box to
     the order function — both when they are read from the configuration file and when the engine passes the
@@ -332,6 +361,7 @@ def run(ctx):
                             p2[atom] += np.array(sh) * np.array(b)
                             J.close("Puckering", ref, J.calc("Puckering", Pk, mk(p2, None, box), "i"), "image-shift", (b, atom, sh), angle=True)
     plumbing(J)
+    open_dimensions(J)
     ctx.set("evaluations", J.n)
     ctx.set("rule", "all relative vectors on a half-integer grid x boxes x box forms x {translations, 27 image shifts per atom, 24 cube rotations, velocity reversal}; "
                     "tables of 4- and 6-atom geometries for dihedral/puckering; distinct = (parameter, periodic, box, reference value class)")
